@@ -111,7 +111,7 @@ func c15Check(ctx *pollCtx, err error, op string, eofOK bool) {
 // HarnessC15Client: a symbolic cancellation instant against unary,
 // server-stream and client-stream calls of the three protocols.
 //
-//verif:harness property=C15 stubs=json,wire shard=proto:3
+//verif:harness property=C15 stubs=json,wire shard=proto:3 race=on
 func HarnessC15Client() {
 	proto := nondetChoice("proto", 3)
 	call := nondetChoice("call", 4)
@@ -246,7 +246,7 @@ func HarnessC15Client() {
 // HarnessC15Handler: a handler that returns its context's error conveys that
 // classification to the client.
 //
-//verif:harness property=C15 stubs=json,wire shard=proto:3
+//verif:harness property=C15 stubs=json,wire shard=proto:3 race=on
 func HarnessC15Handler() {
 	proto := nondetChoice("proto", 3)
 	kind := nondetChoice("kind", 2)
